@@ -2,15 +2,17 @@
 (* rkcommon::utility::DataView<T> (property C11, functional part):             *)
 (*   DataView<T>(p, stride)[i]  designates the sizeof(T) bytes at byte offset  *)
 (*   i * stride from p - nothing else; the default stride is sizeof(T).        *)
-(* A layout is (element size, stride >= element size incl. non-multiples,      *)
-(* start offset of the view inside the byte buffer, number of elements); the   *)
+(* A layout is (element size, stride - any number of bytes: larger than the    *)
+(* element incl. non-multiples, equal to it, smaller (elements overlap) or 0   *)
+(* (every index reads the same element) - start offset of the view inside the  *)
+(* byte buffer, number of elements); the                                       *)
 (* buffer holds a position-revealing byte pattern and is exactly as long as    *)
 (* the layout needs (the driver allocates exactly that much: any other read is *)
 (* a sanitizer report).                                                        *)
 EXTENDS Integers, Sequences, FiniteSets, TLC, Json, IOUtils, SequencesExt
 
 CONSTANTS ESizes,    \* element sizes in bytes (the driver has a T for 1, 2, 4, 8, 12)
-          MaxExtra,  \* strides esz .. 2*esz + MaxExtra
+          MaxExtra,  \* strides 0 .. 2*esz + MaxExtra
           Bases,     \* byte offsets of the view's start within the buffer
           NMax       \* number of elements of a layout: 1..NMax
 
@@ -18,8 +20,8 @@ Align(e) == IF e = 12 THEN 4 ELSE e            \* alignof of the driver's elemen
 Pat(k)   == (k * 7 + 3) % 256                  \* byte stored at buffer position k (0-based)
 
 Layouts == {[esz |-> e, stride |-> st, base |-> b, n |-> n] :
-              e \in ESizes, st \in 1..(2 * 12 + MaxExtra), b \in Bases, n \in 1..NMax}
-Good(l)  == l.esz \in ESizes /\ l.stride >= l.esz /\ l.stride <= 2 * l.esz + MaxExtra
+              e \in ESizes, st \in 0..(2 * 12 + MaxExtra), b \in Bases, n \in 1..NMax}
+Good(l)  == l.esz \in ESizes /\ l.stride >= 0 /\ l.stride <= 2 * l.esz + MaxExtra
 BufLen(l) == l.base + (l.n - 1) * l.stride + l.esz
 Buf(l)   == [k \in 1..BufLen(l) |-> Pat(k - 1)]
 Aligned(l) == l.base % Align(l.esz) = 0 /\ l.stride % Align(l.esz) = 0
@@ -35,8 +37,11 @@ ASSUME PatternRevealsPosition == \A j, k \in 0..255 : Pat(j) = Pat(k) => j = k
 ASSUME BuffersFitPattern == \A l \in GoodLayouts : BufLen(l) <= 256
 ASSUME ElementsInBounds == \A l \in GoodLayouts : \A i \in 0..(l.n - 1) : \A p \in ByteRange(l, i) : p >= l.base /\ p < BufLen(l)
 ASSUME LastElementEndsBuffer == \A l \in GoodLayouts : \E p \in ByteRange(l, l.n - 1) : p = BufLen(l) - 1
-ASSUME ElementsDisjoint == \A l \in GoodLayouts : \A i, j \in 0..(l.n - 1) : i # j => ByteRange(l, i) \cap ByteRange(l, j) = {}
-ASSUME ElementsDistinct == \A l \in GoodLayouts : \A i, j \in 0..(l.n - 1) : i # j => Elem(l, i) # Elem(l, j)
+ASSUME ElementsDisjoint == \A l \in GoodLayouts : l.stride >= l.esz => \A i, j \in 0..(l.n - 1) : i # j => ByteRange(l, i) \cap ByteRange(l, j) = {}
+ASSUME ElementsDistinct == \A l \in GoodLayouts : l.stride > 0 => \A i, j \in 0..(l.n - 1) : i # j => Elem(l, i) # Elem(l, j)
+ASSUME Broadcast        == \A l \in GoodLayouts : l.stride = 0 => \A i \in 0..(l.n - 1) : Elem(l, i) = Elem(l, 0) /\ BufLen(l) = l.base + l.esz
+ASSUME Overlapping      == \A l \in GoodLayouts : l.stride > 0 /\ l.stride < l.esz /\ l.n >= 2 =>
+                              ByteRange(l, 0) \cap ByteRange(l, 1) = (l.base + l.stride)..(l.base + l.esz - 1)
 ASSUME DenseIsArray == \A l \in GoodLayouts : l.stride = l.esz => \A i \in 0..(l.n - 1) : ByteRange(l, i) = (l.base + i * l.esz)..(l.base + (i + 1) * l.esz - 1)
 
 Ops(l) == {"ctor", "reset", "copy"} \cup (IF l.stride = l.esz THEN {"ctor_default_stride", "reset_default_stride"} ELSE {})
@@ -45,7 +50,8 @@ CaseOf(l, i, op) ==
   [a |-> "DataView",
    arg |-> [esz |-> l.esz, stride |-> l.stride, base |-> l.base, n |-> l.n, i |-> i, op |-> op,
             al |-> Aligned(l), buf |-> Buf(l)],
-   cls |-> (IF l.stride = l.esz THEN "dense" ELSE "strided") \o (IF Aligned(l) THEN ",aligned" ELSE ",unaligned"),
+   cls |-> (IF l.stride = l.esz THEN "dense" ELSE IF l.stride > l.esz THEN "strided" ELSE IF l.stride = 0 THEN "broadcast" ELSE "overlapping")
+           \o (IF Aligned(l) THEN ",aligned" ELSE ",unaligned"),
    exp |-> [off |-> i * l.stride, bytes |-> Elem(l, i)]]
 Cases == UNION {{CaseOf(l, i, op) : i \in 0..(l.n - 1), op \in Ops(l)} : l \in GoodLayouts}
 
